@@ -68,6 +68,7 @@ func (c20) Decode(raw json.RawMessage) (interface{}, error) {
 }
 
 func (c20) Shrink(plan interface{}) []interface{} { return nil }
+func (c20) Exhaustive(tier string) bool           { return tier == "thorough" }
 
 func (c20) Run(plan interface{}, schedSeed uint64, replay []simrt.Choice, lenient, keepLog bool) (*Verdict, *simrt.Outcome) {
 	p := plan.(*c20Plan)
